@@ -223,6 +223,8 @@ def write_replay(prop, v):
             "from mcverif.checks import %s as chk\n"
             "rec = json.load(open(%r))\n"
             "vs = chk.evaluate(rec['case'])\n"
+            "if not [v for v in vs if v['key'] == rec['key']]:\n"
+            "    vs = chk.evaluate(rec['case'])  # classes that need an earlier execution in the same process\n"
             "for v in vs: print(v['key'], '::', v['msg'])\n"
             "assert not [v for v in vs if v['key'] == rec['key']], 'counterexample reproduces'\n"
             % (prop, v["msg"].replace('"""', "'''"), env.VERIF, prop.lower(), path)
@@ -230,34 +232,42 @@ def write_replay(prop, v):
     return path
 
 
-def replay_file(prop, path):
-    """Evaluate the case in ``path``; returns the list of violations (dicts)."""
+def replay_file(prop, path, repeat=1):
+    """Evaluate the case in ``path`` (``repeat`` times in this process; the violations of the LAST
+    evaluation are returned); returns the list of violations (dicts)."""
     mod = importlib.import_module("mcverif.checks." + prop.lower())
     with open(path) as f:
         rec = json.load(f)
     env.setup()
     env.enter_scratch()
-    return mod.evaluate(rec["case"]), rec
+    vs = []
+    for _ in range(max(1, repeat)):
+        vs = mod.evaluate(rec["case"])
+    return vs, rec
 
 
 def confirm(prop, path, key):
-    """Re-run the replay twice in fresh interpreters; both must report ``key``. Returns
-    'confirmed' | 'unreproduced' | 'nondeterministic'."""
-    outs = []
-    for _ in range(2):
-        e = dict(os.environ)
-        e["PYTHONHASHSEED"] = "0"
-        r = subprocess.run(
-            [sys.executable, "-m", "mcverif.main", prop, "--replay", path, "--raw"],
-            cwd=env.VERIF,
-            env=e,
-            capture_output=True,
-            text=True,
-        )
-        keys = sorted(set(l.split(" ", 1)[1].strip() for l in r.stdout.splitlines() if l.startswith("RAWKEY ")))
-        outs.append((r.returncode, keys, r.stderr[-2000:]))
-    if outs[0][:2] != outs[1][:2]:
-        return "nondeterministic", outs
-    if key in outs[0][1]:
-        return "confirmed", outs
+    """Re-run the replay twice in fresh interpreters; both must report ``key``. If a single
+    evaluation in a fresh process does not reproduce it, the case is evaluated TWICE in one fresh
+    process (a violation that needs an earlier execution in the same process: process-global state
+    such as a module-level list or cache). Returns (status, outs) with status
+    'confirmed' | 'confirmed-on-second-execution' | 'unreproduced' | 'nondeterministic'."""
+    for repeat, ok in ((1, "confirmed"), (2, "confirmed-on-second-execution")):
+        outs = []
+        for _ in range(2):
+            e = dict(os.environ)
+            e["PYTHONHASHSEED"] = "0"
+            r = subprocess.run(
+                [sys.executable, "-m", "mcverif.main", prop, "--replay", path, "--raw", "--repeat", str(repeat)],
+                cwd=env.VERIF,
+                env=e,
+                capture_output=True,
+                text=True,
+            )
+            keys = sorted(set(l.split(" ", 1)[1].strip() for l in r.stdout.splitlines() if l.startswith("RAWKEY ")))
+            outs.append((r.returncode, keys, r.stderr[-2000:]))
+        if outs[0][:2] != outs[1][:2]:
+            return "nondeterministic", outs
+        if key in outs[0][1]:
+            return ok, outs
     return "unreproduced", outs
